@@ -25,3 +25,31 @@ Lemma combiner_first_ingredient_edge_src : Combiner_first_ingredient_edge = 1%Z.
 Proof. reflexivity. Qed.
 Lemma combiner_recipe_index_src : forall k : Z, Combiner_recipe_index k = k.
 Proof. intros k. reflexivity. Qed.
+
+(* The Buffer and Fleet edge classes only delegate: each of reserve_put / reserve_get / put / get / reserve_put_cancel /
+   reserve_get_cancel touches the store through exactly one call of the store's method of the same name and assigns nothing on it
+   (regenerated from edges/buffer.py and edges/fleet.py) -- the edge objects of the model ARE their stores. *)
+Lemma buffer_reserve_put_delegates_src : Buffer_reserve_put_delegates = true.
+Proof. reflexivity. Qed.
+Lemma buffer_reserve_get_delegates_src : Buffer_reserve_get_delegates = true.
+Proof. reflexivity. Qed.
+Lemma buffer_put_delegates_src : Buffer_put_delegates = true.
+Proof. reflexivity. Qed.
+Lemma buffer_get_delegates_src : Buffer_get_delegates = true.
+Proof. reflexivity. Qed.
+Lemma buffer_reserve_put_cancel_delegates_src : Buffer_reserve_put_cancel_delegates = true.
+Proof. reflexivity. Qed.
+Lemma buffer_reserve_get_cancel_delegates_src : Buffer_reserve_get_cancel_delegates = true.
+Proof. reflexivity. Qed.
+Lemma fleet_reserve_put_delegates_src : Fleet_reserve_put_delegates = true.
+Proof. reflexivity. Qed.
+Lemma fleet_reserve_get_delegates_src : Fleet_reserve_get_delegates = true.
+Proof. reflexivity. Qed.
+Lemma fleet_put_delegates_src : Fleet_put_delegates = true.
+Proof. reflexivity. Qed.
+Lemma fleet_get_delegates_src : Fleet_get_delegates = true.
+Proof. reflexivity. Qed.
+Lemma fleet_reserve_put_cancel_delegates_src : Fleet_reserve_put_cancel_delegates = true.
+Proof. reflexivity. Qed.
+Lemma fleet_reserve_get_cancel_delegates_src : Fleet_reserve_get_cancel_delegates = true.
+Proof. reflexivity. Qed.
